@@ -1,7 +1,7 @@
 (* Properties_C10.v -- regex matches are genuine, leftmost, greedy/left-biased, right group spans.
    Statements only; proofs are in ReProps*.v. *)
 From Coq Require Import List NArith ZArith.
-From NV Require Import Bytes GenConsts ReSyntax ReParse ReEmit ReVM ReSem RsetDefs ReProps ReProps2 ReProps3.
+From NV Require Import Bytes GenConsts ReSyntax ReParse ReEmit ReVM ReSem RsetDefs ReProps ReProps2 ReProps3 ReProps4 ReProps5.
 Import ListNotations.
 
 (* whatever the backtracking machine reports is a genuine run of the program (cut or no cut) *)
@@ -20,7 +20,7 @@ Theorem C10_vm_first : forall St atom_step mark_step P d pc s o,
   | Fail => forall cs' r', ~ path St atom_step mark_step P pc s cs' r'
   | _ => True
   end.
-Proof. intros. pose proof (rec_first St atom_step mark_step P d pc s o H) as F. destruct o; exact F. Qed.
+Proof. exact rec_first'. Qed.
 Print Assumptions C10_vm_first.
 
 (* the emitted block of a regular expression: a run that stays inside the block and first reaches
@@ -40,6 +40,37 @@ Print Assumptions C10_emit_complete.
 Theorem C10_emit_is_tr : forall t, wf_node t -> forall b, emit_n t b = emit (tr t) b.
 Proof. exact emit_n_tr. Qed.
 Print Assumptions C10_emit_is_tr.
+
+(* regexec's start-position loop on a program MARK 0; code of top; MARK 1; MATCH: a reported match is a
+   derivation of the set semantics of top from one of the start positions the loop tries, between
+   the two outer marks (groups are the marks of that derivation) *)
+Theorem C10_sound : forall d P flg line top, code_at P 0 ([IMark 0] ++ emit top 1 ++ [IMark 1; IMatch]) ->
+  forall k o s r c, re_loop d P flg line k o s = (Ok (Some r), c) ->
+  exists p s1, In p (tried line k o s) /\ M st (atom_step flg line) mark_step top (mark_step 0 (init p)) s1 /\ r = mark_step 1 s1.
+Proof. exact re_loop_sound. Qed.
+Print Assumptions C10_sound.
+
+(* with the cut counter 0: a failed search means that no tried start position has any derivation;
+   a reported match comes from the first tried start that has one (leftmost) and is reached by the
+   lexicographically least choice list (greedy, left-biased) *)
+Theorem C10_leftmost_priority : forall d P flg line top, code_at P 0 ([IMark 0] ++ emit top 1 ++ [IMark 1; IMatch]) ->
+  forall k o s x, re_loop d P flg line k o s = (Ok x, 0%N) ->
+  match x with
+  | None => forall p, In p (tried line k o s) -> forall s1, ~ M st (atom_step flg line) mark_step top (mark_step 0 (init p)) s1
+  | Some r =>
+    exists l1 p l2 cs, tried line k o s = l1 ++ p :: l2 /\
+      (forall q, In q l1 -> forall s1, ~ M st (atom_step flg line) mark_step top (mark_step 0 (init q)) s1) /\
+      path st (atom_step flg line) mark_step P 0 (init p) cs r /\
+      (forall cs' r', path st (atom_step flg line) mark_step P 0 (init p) cs' r' -> lexle cs cs')
+  end.
+Proof. exact re_loop_leftmost. Qed.
+Print Assumptions C10_leftmost_priority.
+
+(* the program of every accepted pattern string has exactly that layout, with top = tr (numbered tree) *)
+Theorem C10_regcomp_layout : forall pat p, regcomp pat = Ok (Some p) ->
+  code p = [IMark 0] ++ emit (tr (tree p)) 1 ++ [IMark 1; IMatch].
+Proof. exact regcomp_layout. Qed.
+Print Assumptions C10_regcomp_layout.
 
 (* the documented backtracking depth is a constant of the specification; the engine's limit is generated *)
 Theorem C10_documented_depth : (256 <= NDEPT)%Z.
